@@ -134,6 +134,7 @@ type Sim struct {
 	mainDoneSeq uint64    // step count at which the driver was first seen finished
 	mainDoneAt  time.Time // bubble time of that moment
 	conds map[uintptr][]chan struct{} // emulated sync.Cond wait lists
+	pools map[*sync.Pool][]any       // per-run stand-in for sync.Pool contents
 
 	ctlWake chan struct{}
 	ctlGoid uint64
